@@ -69,6 +69,10 @@ def eval_case(case) -> Outcome:
         zeros = [tt for tt, r in zip(c.T, c.R) if r == 0]
         hot_pinch, cold_pinch = max(zeros), min(zeros)
         hu, cu = U.frac_rows(P.ut_rows(t, "hot")), U.frac_rows(P.ut_rows(t, "cold"))
+        active_names = {e["name"] for e in P.expanded_utilities(case)}
+        for r in hu + cu:
+            if r["q"] > 0 and any((x["name"] == r["name"] and not x.get("active", True)) for x in (case.get("utilities") or [])) and r["name"] not in active_names:
+                out.fail("C04.inactive_utility_used", f"{where}: utility {r['name']} was supplied with active = false but carries {float(r['q'])!r}")
         # --- (a) feasibility from reported duties
         pts = set(Te)
         for r in hu + cu:
